@@ -246,6 +246,8 @@ def config_jobs(props, quick=True):
         for variant in (0, 1):
             for t in ths:
                 for tk in toks:
+                    if variant == 1 and meas == 'OVERLAP' and t == 3:
+                        t = 2.5         # an overlap threshold with a fraction
                     if variant == 1 and t in (1.0, 0.5, 1, 2):
                         # the same threshold as another numeric type (int / numpy scalar), marked for the worker
                         t = {'np': t} if t in (0.5, 2) else int(t)
@@ -409,10 +411,10 @@ def filter_config_layer(props, quick=True):
     jobs = []
     for name in ('Size', 'Prefix', 'Position', 'Overlap'):
         if name == 'Overlap':
-            cfgs = [('OVERLAP', s_, op) for s_ in (1, 2, 3) for op in ('>=', '>', '=')]
+            cfgs = [('OVERLAP', s_, op) for s_ in (1, 2.0, 2.5) for op in ('>=', '>', '=')]
         else:
             cfgs = [(m, t, '>=') for m in PRUNED_MEASURES for t in (0.4, 2.0 / 3, 1.0)] + \
-                   [('OVERLAP', s_, '>=') for s_ in (1, 2)]
+                   [('OVERLAP', s_, '>=') for s_ in (1, 2.0, 1.5)]
         for variant in (0, 1):
             for c in range(0, len(cfgs), 3):
                 jobs.append({'filter': name, 'variant': variant, 'cfgs': cfgs[c:c + 3], 'n_jobs': [1, 3] if quick else [1, 2, 4],
